@@ -8,7 +8,7 @@ def specs_direct(tier):
     s += [(DR, "unit_direct_solve", {"nsub": n, "nonhermitian": nh, "timeout_ms": t}) for n, nh in ((1, False), (1, True), (2, True), (3, False))]
     s += [(DR, "unit_direct_setup", {"nsub": n, "nonhermitian": nh, "opts": o, "timeout_ms": t})
           for n, nh, o in ((1, False, "none"), (2, True, "none"), (2, False, "eigenvalue_atol"), (1, True, "atol"), (1, False, "eps"), (2, True, "extra"), (3, False, "extra"))]
-    s += [("contracts.kpm", "unit_greens_function", {"timeout_ms": t})]
+    s += [("contracts.kpm", "unit_greens_function", {"timeout_ms": t}), ("contracts.kpm", "unit_kpm_vectors", {"timeout_ms": t})]
     s += [("contracts.kpm", "unit_solve_sylvester_KPM", {"nsub": n, "with_aux": a, "timeout_ms": t}) for n, a in ((1, False), (1, True), (2, True))]
     s += [("contracts.kpm", "unit_solve_sylvester_KPM", {"nsub": n, "with_aux": a, "timeout_ms": t, "defaults": True}) for n, a in ((2, False), (1, True))]
     s += [("contracts.kpm", "unit_rescale", {"kind": k, "bounds_given": bg, "with_lower_bounds": lb, "timeout_ms": t})
